@@ -112,6 +112,7 @@ def parseLine (views : Views) (ws : List String) : Option (Views × Option TEv) 
     | ["newerr", i] => ev (.newErr (← parseNat i))
     | ["end"] => ev .end_
     | ["gor", n] => ev (.gor (← parseNat n))
+    | ["site", op, fn] => ev (.site (← parseNat op) fn)
     | _ => none
   | [] => none
 
